@@ -1,10 +1,14 @@
 (* Correspondence checker for C18: overlapping(t) / overlapping_iter(t). *)
 From PV Require Import Model.Timeline.
 Record case := K { c_eps : Z; c_t : list seg;
-                   o_queries : list (Z * (list seg * list seg)) }.  (* t, overlapping(t), list(overlapping_iter(t)) *)
+                   o_queries : list (Z * (list seg * list seg));    (* t, overlapping(t), list(overlapping_iter(t)) *)
+                   o_qqueries : list (Z * (list seg * list seg)) }. (* the same with t in quarter ticks *)
+Definition scale4 (s : seg) : seg := (4 * st s, 4 * en s).
 Definition check (c : case) : nat :=
   let eps := c_eps c in
   let t := tl_of eps (c_t c) in
   if forallb (fun q => list_eqb seqb (fst (snd q)) (overlapping (fst q) t)
                        && list_eqb seqb (snd (snd q)) (overlapping (fst q) t)) (o_queries c)
+     && forallb (fun q => list_eqb seqb (map scale4 (fst (snd q))) (overlapping (fst q) (map scale4 t))
+                       && list_eqb seqb (map scale4 (snd (snd q))) (overlapping (fst q) (map scale4 t))) (o_qqueries c)
   then 0%nat else 1%nat.
